@@ -1534,6 +1534,13 @@ class WebSocketClientConnection(simple_httpclient._HTTPConnection):
         self.headers = headers
         self.protocol = self.get_websocket_protocol()
         self.protocol._process_server_headers(self.key, self.headers)
+        selected = self.protocol.selected_subprotocol
+        if selected is not None:
+            # RFC 6455 section 4.1: the server may only pick one of the
+            # subprotocols this client asked for.
+            requested = self.request.headers.get("Sec-WebSocket-Protocol", "")
+            if selected not in [s.strip() for s in requested.split(",")]:
+                raise ValueError("unrequested subprotocol %r" % selected)
         self.protocol.stream = self.connection.detach()
 
         IOLoop.current().add_callback(self.protocol._receive_frame_loop)
